@@ -287,6 +287,11 @@ func (p *parser) resolveModuleImport(importStmt *ast.ImportStmt) {
 		resolveSingleModule(inclPath)
 	} else {
 		filepath.WalkDir(inclPath, func(path string, d fs.DirEntry, err error) error {
+			if err != nil { // the directory (or one inside of it) does not exist or cannot be read
+				p.err(ddperror.MISC_INCLUDE_ERROR, importStmt.Range, fmt.Sprintf("Fehler beim einbinden von '%s': %s", path, err.Error()))
+				return err
+			}
+
 			if path == inclPath {
 				return nil
 			}
